@@ -442,6 +442,14 @@ def t_nul(rec, seed, tier, name, backend):
                 n += 1
                 if pos < ln - 1:
                     rec.nt("nul", name, backend, ln, pos, as_text)
+    # NUL beyond the truncation limit of the format (it would be cut off -- and is refused all the same) and deep inside long passwords
+    lim = table.T[name].trunc or 8
+    for pos in sorted({lim - 1, lim, lim + 1, lim + 28, 200}):
+        base = bytearray(0x61 + (i * 5) % 26 for i in range(pos + 4))
+        base[pos] = 0
+        o_nul(rec, {"name": name, "backend": backend, "secret": bytes(base), "as_text": False}, soft=True)
+        rec.nt("nul", name, backend, len(base), pos, False)
+        n += 1
     rec.ev(n)
     rec.count(f"nul:{name}:{backend}", n)
     rec.sample("nul", {"name": name, "backend": backend, "lengths": [1, top - 1], "positions": "all"})
